@@ -5,7 +5,8 @@
 (* window - that the real lifter accepted and the real executor ran is     *)
 (* re-executed by A64!Exec (decode of the word by bit fields + Arm ARM      *)
 (* pseudocode) and compared on every architecturally defined component:    *)
-(* X0..X30, SP, N Z C V, every byte of the window, V0..V31, next pc.       *)
+(* X0..X30, SP, N Z C V, every byte of the window, V0..V31, next pc; and   *)
+(* no page of the executor's memory may have been written elsewhere.       *)
 (* Events are independent (one line per instance).                         *)
 (*                                                                         *)
 (*  - lift not ok  : Err = not accepted (outside "every instruction the    *)
@@ -40,6 +41,16 @@ ShapeOK(e, want) ==
   /\ DOMAIN e.post.x = 1..31 /\ DOMAIN e.post.f = 1..4 /\ DOMAIN e.post.mem = DOMAIN want.s.mem
   /\ (want.s.q # <<>>) => (Has(e.post, "q") /\ DOMAIN e.post.q = 1..32)
 
+\* The executor's memory is copy-on-write over the backing: every page it created must overlap the
+\* data window (the specification never stores anywhere else when it judges an instance).
+PageAtWindow(p, psize, mbase, len) ==
+  ToNatCap(Sub(64, p, mbase), 100000) < len \/ ToNatCap(Sub(64, mbase, p), 100000) < psize
+Stray(e) ==
+  /\ Has(e.post, "pages")
+  /\ \E i \in 1..Len(e.post.pages) :
+        \/ DOMAIN e.post.pages[i] # 1..8
+        \/ ~PageAtWindow(e.post.pages[i], e.post.psize, e.pre.mbase, Len(e.pre.mem))
+
 \* names[k] for the positions k at which the sequences a and b differ
 DiffNames(a, b, names) ==
   LET sel == SelectSeq(Idx(Len(names)), LAMBDA k : a[k] # b[k])
@@ -54,9 +65,11 @@ Diff(e, want) ==
   \o (IF p.mem # ws.mem THEN <<"mem">> ELSE <<>>)
   \o (IF ws.q = <<>> THEN <<>> ELSE DiffNames(p.q, ws.q, Names32))
   \o (IF e.run.ok.pc # want.pc THEN <<"pc">> ELSE <<>>)
+  \o (IF Stray(e) THEN <<"stray-store">> ELSE <<>>)
 
 \* expected values of the differing components (diagnosis only)
 ExpOf(want, c) ==
+  IF c = "stray-store" THEN <<>> ELSE
   IF c = "sp" THEN want.s.sp ELSE IF c = "pc" THEN want.pc ELSE IF c = "mem" THEN want.s.mem
   ELSE IF \E i \in 1..4 : FlagNames[i] = c THEN <<want.s.f[CHOOSE i \in 1..4 : FlagNames[i] = c]>>
   ELSE IF \E i \in 1..31 : Names31[i] = c THEN want.s.x[CHOOSE i \in 1..31 : Names31[i] = c]
